@@ -392,23 +392,23 @@ static void one_case(Ctx &c, Shape const &s, int gc, int f, int pat, int target_
     else rc = gr->write_multicol(fn, "grid file");
     if (rc != COLVARS_OK || cvm::get_error()) { fail(c, gc, f, s, pat, "write-error", ",\"error\":\"" + jesc(px.errtxt) + "\""); cvm::clear_error(); return; }
     { std::ifstream in(fn); std::stringstream ss; ss << in.rdbuf(); written = ss.str(); }
-    check_upper = false;  // the format carries min, width and npoints only
+    // (the format carries min, width and npoints: the upper boundary of the re-created grid is min + npoints * width)
     Expect em = e;
     if (!is_count) em.data = means;
     if (is_count) {
       colvar_grid<size_t> g2(fn, 1);
       read_failed = cvm::get_error() != 0;
-      bad = compare(g2, em, 0, bound_rel, false);
+      bad = compare(g2, em, 0, bound_rel, true);
       observed = grid_json(g2);
     } else if (sc) {
       colvar_grid_scalar g2(fn);
       read_failed = cvm::get_error() != 0;
-      bad = compare(g2, em, data_rel, bound_rel, false);
+      bad = compare(g2, em, data_rel, bound_rel, true);
       observed = grid_json(g2);
     } else {
       colvar_grid_gradient g2(fn);
       read_failed = cvm::get_error() != 0;
-      bad = compare(g2, em, data_rel, bound_rel, false);
+      bad = compare(g2, em, data_rel, bound_rel, true);
       observed = grid_json(g2);
     }
     e = em;
